@@ -11,7 +11,6 @@ structure SameConn (d d' : Dev) : Prop where
 
 theorem RView.read_isPipe (v : RView) (bs : Bytes) : (v.read bs).isPipe = v.isPipe := by
   unfold RView.read; split <;> rfl
-theorem RView.consume_zero (v : RView) : v.consume 0 = v := by simp [RView.consume]
 theorem RView.consume_consume (v : RView) (k k' : Nat) : (v.consume k).consume k' = v.consume (k + k') := by
   simp [RView.consume, List.drop_drop]
 
@@ -392,8 +391,11 @@ theorem postPoll_eq (d : Dev) (env : Env) (o : Oracle) :
       if (ppReady d env).1.aborted then ((ppReady d env).1, o, [], none)
       else processAction (ppPing env (ppReconn (ppReady d env))).1 o [] (ppPing env (ppReconn (ppReady d env))).2 := rfl
 
-/-- the bytes the pass takes in from the descriptor -/
+/-- the bytes the pass reads from the descriptor -/
 def passTaken (d : Dev) (env : Env) : Bytes := if ppFlags d env != 0 then readTaken (ppC0 d env) else []
+
+/-- the number of oldest pending bytes the pass's `read` overwrites (0 unless the input buffer is full at `MAX_DEV_BUF`) -/
+def passDropped (d : Dev) (env : Env) : Nat := if ppFlags d env != 0 then readDropped (ppC0 d env) else 0
 
 theorem ppPing_same (env : Env) (p : CS × Option Time) :
     SameConn p.1.dev (ppPing env p).1.dev ∧ (ppPing env p).1.dev.toBuf = p.1.dev.toBuf := by
@@ -448,12 +450,12 @@ theorem handleReady_up_stat (c : CS) (h : c.dev.conn ≠ 2) (h2 : (handleReady c
 /-- pass, stage 1, established connection -/
 theorem ppReady_connected (d : Dev) (env : Env) (h2 : d.conn = 2) :
     (ppReady d env).1.dev.conn = 2 ∧ (ppReady d env).1.dev.statConnects = d.statConnects ∧
-    rview (ppReady d env).1.dev = (rview d).read (passTaken d env) := by
-  unfold ppReady passTaken
+    rview (ppReady d env).1.dev = ((rview d).consume (passDropped d env)).read (passTaken d env) := by
+  unfold ppReady passTaken passDropped
   split
   · have hv := handleReady_view_connected (ppC0 d env) h2
     exact ⟨hv.2, handleReady_stat_connected (ppC0 d env) h2, hv.1⟩
-  · exact ⟨h2, rfl, (RView.read_nil _).symm⟩
+  · exact ⟨h2, rfl, (RView.read_nil' _).symm⟩
 
 theorem reconnectDev_reconn (c : CS) (tmo : Option Time) (he : c.dev.conn = 0 → c.dev.fromBuf = []) :
     Reconn c.dev (reconnectDev c tmo).1.dev := by
@@ -486,12 +488,14 @@ theorem processAction_quiet (c : CS) (o : Oracle) (out : List Out) (tmo : Option
 
 /-- C09 over one whole pass of `dev_post_poll` on an established connection — `_handle_ready_device`, the reconnect
     logic, the ping, and `_process_action` with any queue, scripts, oracle answers: either the connection is still the
-    same one, and then the read side is the old one advanced by exactly the bytes the descriptor delivered, minus a
-    prefix that the expects consumed; or the device reconnected, nothing is pending, and a connection that is up is a
-    new one (counted) whose decoder is at rest -/
+    same one, and then the read side is the old one — less the `passDropped` oldest pending bytes, overwritten only when
+    the input buffer is full at `MAX_DEV_BUF` — advanced by exactly the bytes read from the descriptor, minus a prefix that
+    the expects consumed; or the device reconnected, nothing is pending, and a connection that is up is a new one
+    (counted) whose decoder is at rest -/
 theorem postPoll_connected (d : Dev) (env : Env) (o : Oracle) (h2 : d.conn = 2) :
     ((postPoll d env o).1.dev.conn = 2 ∧ (postPoll d env o).1.dev.statConnects = d.statConnects ∧
-      ∃ k, rview (postPoll d env o).1.dev = ((rview d).read (passTaken d env)).consume k) ∨
+      ∃ k, rview (postPoll d env o).1.dev =
+        (((rview d).consume (passDropped d env)).read (passTaken d env)).consume k) ∨
     Reconn d (postPoll d env o).1.dev := by
   rw [postPoll_eq]
   obtain ⟨hc1, hs1, hv1⟩ := ppReady_connected d env h2
@@ -519,7 +523,7 @@ theorem postPoll_connected (d : Dev) (env : Env) (o : Oracle) (h2 : d.conn = 2) 
 /-! ### not connected ⇒ both buffers empty, through a whole pass -/
 
 theorem readyWrite_toBuf (c : CS) :
-    (readyWrite c).1.dev.toBuf = c.dev.toBuf ∨ (readyWrite c).1.dev.toBuf = [] := by
+    (readyWrite c).1.dev.toBuf = c.dev.toBuf ∨ (readyWrite c).1.dev.toBuf = c.dev.toBuf.drop c.env.wcap := by
   unfold readyWrite
   dsimp only
   rcases finishConnectOne_cases c with ⟨h1, h2⟩ | ⟨h1, h2⟩
@@ -534,7 +538,7 @@ theorem readyWrite_toBuf (c : CS) :
 theorem readTaken_eq (c : CS) (bs : Bytes) (h1 : ¬ (c.dev.conn == 0) = true) (h2 : ¬ c.dev.fd.isNone = true)
     (h3 : ¬ (c.env.revents &&& 4 != 0 || c.env.revents &&& 8 != 0 || c.env.revents &&& 16 != 0) = true)
     (h4 : (readyWrite c).2.1 = false) (h5 : (readyWrite c).2.2 = false) (h6 : c.env.revents &&& 1 ≠ 0)
-    (hr : c.env.read = some (some bs)) : readTaken c = bs := by
+    (hr : c.env.read = some (some bs)) : readTaken c = readOf c.dev bs := by
   unfold readTaken
   have h6' : (c.env.revents &&& 1 == 0) = false := by simpa using h6
   simp only [h1, h2, h3, h4, h5, h6', Bool.or_self, Bool.false_eq_true, ↓reduceIte, hr]
@@ -554,19 +558,19 @@ theorem handleReady_quiet (c : CS) (hq : Quiet c.dev) (hr : c.dev.conn ≠ 2 →
     have htb : (readyWrite c).1.dev.toBuf = [] := by
       rcases readyWrite_toBuf c with h | h
       · rw [h, ht]
-      · exact h
+      · rw [h, ht]; simp
     rw [hf] at hfb
     split; · exact ⟨hfb, htb⟩
     split; · exact ⟨hfb, htb⟩
     rename_i h5 h6
-    rcases readyRead_cases c.env.revents (readyWrite c).1 with h | ⟨bs, ha, hb, hc, _, _⟩
+    rcases readyRead_cases c.env.revents (readyWrite c).1 with ⟨n, h⟩ | ⟨bs, ha, hb, hc, _, _⟩
     · rw [h]; exact ⟨hfb, htb⟩
     · exfalso
       have hn := readyWrite_noskip c (by simpa using h6)
       rw [hn.2.2.2.2] at ha
       have := readTaken_eq c bs h1 h3 h4 (by simpa using h5) (by simpa using h6) hc ha
       rw [hr h2] at this
-      exact hb this.symm
+      exact readOf_ne_nil c.dev bs hb this.symm
 
 theorem ppReady_quiet (d : Dev) (env : Env) (hq : Quiet d) (hr : d.conn ≠ 2 → passTaken d env = []) :
     Quiet (ppReady d env).1.dev := by
@@ -712,14 +716,14 @@ theorem passStep_good (s : Dev × Bytes) (p : Env × Oracle) (hg : Good s) (he :
           rw [decodeFrom_append, this.1, this.2]
           rfl
         · simp [rview, hp]
-      refine ⟨hq, fun _ => ⟨min k (keptStream d.isPipe S).length + k', ?_⟩, fun _ hp => ?_⟩
+      refine ⟨hq, fun _ => ⟨min (k + passDropped d env) (keptStream d.isPipe S).length + k', ?_⟩, fun _ hp => ?_⟩
       · show d'.fromBuf = _
-        have : d'.fromBuf = (d.fromBuf ++ (rview d).keptOf (passTaken d env)).drop k' := by
+        have : d'.fromBuf = (d.fromBuf.drop (passDropped d env) ++ (rview d).keptOf (passTaken d env)).drop k' := by
           have := hbuf
           simp only [rview, RView.consume] at this
           rw [this, RView.read_buf]
           rfl
-        rw [this, hk, hpp, hkept, drop_append_min, List.drop_drop]
+        rw [this, hk, hpp, hkept, List.drop_drop, drop_append_min, List.drop_drop]
       · show d'.tstate = _ ∧ d'.tcmd = _
         rw [hpp] at hp
         have hd := hg.dec h2 hp
